@@ -4,6 +4,9 @@ from fractions import Fraction as F
 from .. import core, fixedq
 
 
+KERAS3_PASS = True   # thorough tier repeats the tie under the pinned Keras 3
+
+
 def run(run: core.Run, tier: str):
   recs = fixedq.collect(run, tier, "C01")
   run.extra["rule"] = (
